@@ -79,7 +79,12 @@ def nodeval(w, n, asg):
         table = asg.get("fun:" + w.npayload(p)[0])
         if table is None:
             raise refsem.NoSemantics("uninterpreted function without interpretation")
-        return table[tuple(nodeval(w, a, asg) for a in args)]
+        key = tuple(nodeval(w, a, asg) for a in args)
+        if key in table:
+            return table[key]
+        # arguments outside the enumerated domain: the interpretation is extended by a constant (still one
+        # total function, the same on both sides of any comparison)
+        return table[min(table)]
     vals = [nodeval(w, a, asg) for a in args]
     width = None
     payload = None
@@ -293,10 +298,12 @@ _CTOR_OF = {}
 
 def ctor_of(opname):
     """FormulaManager constructor that builds operator `opname` from its parameters in order."""
-    if _CTOR_OF:
-        return _CTOR_OF.get(opname)
     repo = get_repo()
     ci = repo.cls(ctors.FM)
+    if _CTOR_OF:
+        if opname in _CTOR_OF:
+            return _CTOR_OF[opname]
+        return _ctor_guess(ci, opname)
     cands = {}
     for nm in ci.order:
         if nm.startswith("_") or ci.own_func(nm) is None:
@@ -312,6 +319,23 @@ def ctor_of(opname):
         _CTOR_OF[opn] = sorted(pref, key=len)[0]
     _CTOR_OF.update({"ARRAY_SELECT": "Select", "ARRAY_STORE": "Store", "STR_LENGTH": "StrLength",
                      "BV_TONATURAL": "BVToNatural", "INT_TO_STR": "IntToStr", "STR_TO_INT": "StrToInt"})
+    return _CTOR_OF.get(opname) or _ctor_guess(ci, opname)
+
+
+def _ctor_guess(ci, opname):
+    if True:
+        # naming convention of the FormulaManager API (BV_AND -> BVAnd); analyse() verifies that the
+        # interpreted constructor really builds `opname`, so a wrong guess is reported as unsupported
+        special = {"BV_ULT": "BVULT", "BV_ULE": "BVULE", "BV_SLT": "BVSLT", "BV_SLE": "BVSLE", "BV_UDIV": "BVUDiv",
+                   "BV_UREM": "BVURem", "BV_SDIV": "BVSDiv", "BV_SREM": "BVSRem", "BV_LSHL": "BVLShl",
+                   "BV_LSHR": "BVLShr", "BV_ASHR": "BVAShr", "BV_ROL": "BVRol", "BV_ROR": "BVRor", "BV_ZEXT": "BVZExt",
+                   "BV_SEXT": "BVSExt", "LE": "LE", "LT": "LT", "ITE": "Ite", "IFF": "Iff", "TOREAL": "ToReal",
+                   "STR_CONCAT": "StrConcat", "STR_CONTAINS": "StrContains", "STR_INDEXOF": "StrIndexOf",
+                   "STR_REPLACE": "StrReplace", "STR_SUBSTR": "StrSubstr", "STR_PREFIXOF": "StrPrefixOf",
+                   "STR_SUFFIXOF": "StrSuffixOf", "STR_CHARAT": "StrCharAt", "EQUALS": "Equals", "DIV": "Div"}
+        guess = special.get(opname) or "".join("BV" if p == "BV" else p.title() for p in opname.split("_"))
+        if ci.own_func(guess) is not None:
+            _CTOR_OF[opname] = guess
     return _CTOR_OF.get(opname)
 
 
